@@ -831,3 +831,126 @@ Proof.
   rewrite A. fold k. rewrite EX. unfold xv_last. fold k. rewrite EP.
   destruct pts as [|p t]; [contradiction|]. reflexivity.
 Qed.
+
+(* ------------------------------------------------------------------ P,H with ONE volatile chemical (N = 1): the lever rule *)
+Section PHChemical.
+Variable orc : oracle.
+Variable c : ctx.
+Variable P : Q.
+Variables HL HG : vec -> Q.      (* enthalpy of a liquid / gas flow vector at (Tsat(P), P) *)
+Variable HR : list vec -> Q.
+Hypothesis HL_ext : forall a b, veq a b -> HL a == HL b.
+Hypothesis HG_ext : forall a b, veq a b -> HG a == HG b.
+Hypothesis HL_sub : forall a b f, length a = length b -> HL (vsub a (vscale f b)) == HL a - f * HL b.
+Hypothesis HG_add : forall a b f, length a = length b -> HG (vadd a (vscale f b)) == HG a + f * HG b.
+Hypothesis xH_lin : forall k s, o_xH orc k s (o_Tsat orc P) P == HL (liq s) + HG (vap s) + HR (oth s).
+
+Lemma split_states s V : wf s -> length (molv c) = length (idx c) -> NoDup (idx c) ->
+  (forall i, In i (idx c) -> (i < length (liq s))%nat) ->
+  let s2 := all_liq c (all_vap c s) in
+  let G := only_idx c (liq s2) in
+  veq (liq (split_V c V s2)) (vsub (liq s2) (vscale V G)) /\
+  veq (vap (split_V c V s2)) (vadd (vap s2) (vscale V G)) /\
+  veq (liq (all_vap c s)) (vsub (liq s2) (vscale 1 G)) /\
+  veq (vap (all_vap c s)) (vadd (vap s2) (vscale 1 G)) /\
+  length G = length (liq s2) /\ length (liq s2) = length (vap s2) /\ oth (split_V c V s2) = oth s2 /\ oth (all_vap c s) = oth s2.
+Proof.
+  intros W LM ND RG s2 G. unfold wf in W.
+  assert (L1 : length (liq (all_vap c s)) = length (liq s)) by (unfold all_vap, write2; cbn [liq with_flows]; apply scatter_length).
+  assert (V1 : length (vap (all_vap c s)) = length (vap s)) by (unfold all_vap, write2; cbn [vap with_flows]; apply scatter_length).
+  assert (L2 : length (liq s2) = length (liq s)) by (unfold s2, all_liq, write2; cbn [liq with_flows]; rewrite scatter_length; exact L1).
+  assert (V2 : length (vap s2) = length (vap s)) by (unfold s2, all_liq, write2; cbn [vap with_flows]; rewrite scatter_length; exact V1).
+  assert (LG : length G = length (liq s2)) by (unfold G, only_idx; rewrite map_length, seq_length; reflexivity).
+  (* pointwise description of the three states *)
+  assert (PT : forall k, (k < length (liq s))%nat ->
+     match pos k (idx c) with
+     | Some p => nthq (liq s2) k = nthq (molv c) p /\ nthq (vap s2) k = 0 /\ nthq G k = nthq (molv c) p /\
+                 nthq (liq (all_vap c s)) k = 0 /\ nthq (vap (all_vap c s)) k = nthq (molv c) p /\
+                 nthq (liq (split_V c V s2)) k == nthq (molv c) p - V * nthq (molv c) p /\
+                 nthq (vap (split_V c V s2)) k == V * nthq (molv c) p
+     | None => nthq (liq s2) k = nthq (liq s) k /\ nthq (vap s2) k = nthq (vap s) k /\ nthq G k = 0 /\
+               nthq (liq (all_vap c s)) k = nthq (liq s) k /\ nthq (vap (all_vap c s)) k = nthq (vap s) k /\
+               nthq (liq (split_V c V s2)) k = nthq (liq s) k /\ nthq (vap (split_V c V s2)) k = nthq (vap s) k
+     end).
+  { intros k Hk.
+    assert (A1 : nthq (liq (all_vap c s)) k = match pos k (idx c) with Some p => nthq (zeros c) p | None => nthq (liq s) k end)
+      by (unfold all_vap, write2; cbn [liq with_flows]; apply nthq_scatter; exact Hk).
+    assert (A2 : nthq (vap (all_vap c s)) k = match pos k (idx c) with Some p => nthq (molv c) p | None => nthq (vap s) k end)
+      by (unfold all_vap, write2; cbn [vap with_flows]; apply nthq_scatter; lia).
+    assert (B1 : nthq (liq s2) k = match pos k (idx c) with Some p => nthq (molv c) p | None => nthq (liq (all_vap c s)) k end)
+      by (unfold s2, all_liq, write2; cbn [liq with_flows]; apply nthq_scatter; lia).
+    assert (B2 : nthq (vap s2) k = match pos k (idx c) with Some p => nthq (zeros c) p | None => nthq (vap (all_vap c s)) k end)
+      by (unfold s2, all_liq, write2; cbn [vap with_flows]; apply nthq_scatter; lia).
+    assert (C1 : nthq (liq (split_V c V s2)) k = match pos k (idx c) with
+                  | Some p => nthq (vsub (molv c) (fit (length (molv c)) (vscale V (molv c)))) p | None => nthq (liq s2) k end)
+      by (unfold split_V, set_flows, write2; cbn [liq with_flows]; apply nthq_scatter; lia).
+    assert (C2 : nthq (vap (split_V c V s2)) k = match pos k (idx c) with
+                  | Some p => nthq (fit (length (molv c)) (vscale V (molv c))) p | None => nthq (vap s2) k end)
+      by (unfold split_V, set_flows, write2; cbn [vap with_flows]; apply nthq_scatter; lia).
+    assert (D : nthq G k = match pos k (idx c) with Some _ => nthq (liq s2) k | None => 0 end)
+      by (unfold G, only_idx; rewrite nthq_map_seq by lia; reflexivity).
+    destruct (pos k (idx c)) as [p|] eqn:E.
+    - apply pos_some in E. destruct E as (Hp & _). unfold zeros in *. rewrite nthq_vzero in *.
+      rewrite C1, C2, D, B1. repeat split; auto.
+      + rewrite nthq_vsub by (rewrite fit_length; reflexivity). rewrite nthq_fit by lia. rewrite nthq_vscale. reflexivity.
+      + rewrite nthq_fit by lia. apply nthq_vscale.
+    - rewrite C1, C2, B1, B2, A1, A2. repeat split; auto. }
+  assert (OV : forall k, (length (liq s) <= k)%nat -> forall v, length v = length (liq s) -> nthq v k = 0)
+    by (intros k Hk v Lv; apply nthq_over; lia).
+  assert (LS1 : length (liq (split_V c V s2)) = length (liq s))
+    by (unfold split_V, set_flows, write2; cbn [liq with_flows]; rewrite scatter_length; exact L2).
+  assert (VS1 : length (vap (split_V c V s2)) = length (vap s))
+    by (unfold split_V, set_flows, write2; cbn [vap with_flows]; rewrite scatter_length; exact V2).
+  assert (LSG : length (vscale V G) = length (liq s2)) by (rewrite vscale_length; exact LG).
+  assert (LSG1 : length (vscale 1 G) = length (liq s2)) by (rewrite vscale_length; exact LG).
+  repeat split; try congruence.
+  - rewrite LS1. unfold vsub. rewrite map2_length by congruence. congruence.
+  - intros k. destruct (Nat.lt_ge_cases k (length (liq s))) as [Hk|Hk].
+    + rewrite nthq_vsub by congruence. rewrite nthq_vscale. specialize (PT k Hk).
+      destruct (pos k (idx c)); destruct PT as (A & B & D & E & F & X & Y); rewrite ?X, A, D; lra.
+    + rewrite !OV; try reflexivity; try lia; try congruence. unfold vsub. rewrite map2_length by congruence. congruence.
+  - rewrite VS1. unfold vadd. rewrite map2_length by congruence. congruence.
+  - intros k. destruct (Nat.lt_ge_cases k (length (liq s))) as [Hk|Hk].
+    + rewrite nthq_vadd by congruence. rewrite nthq_vscale. specialize (PT k Hk).
+      destruct (pos k (idx c)); destruct PT as (A & B & D & E & F & X & Y); rewrite ?Y, B, D; lra.
+    + rewrite !OV; try reflexivity; try lia; try congruence. unfold vadd. rewrite map2_length by congruence. congruence.
+  - rewrite L1. unfold vsub. rewrite map2_length by congruence. congruence.
+  - intros k. destruct (Nat.lt_ge_cases k (length (liq s))) as [Hk|Hk].
+    + rewrite nthq_vsub by congruence. rewrite nthq_vscale. specialize (PT k Hk).
+      destruct (pos k (idx c)); destruct PT as (A & B & D & E & F & X & Y); rewrite E, A, D; lra.
+    + rewrite !OV; try reflexivity; try lia; try congruence. unfold vsub. rewrite map2_length by congruence. congruence.
+  - rewrite V1. unfold vadd. rewrite map2_length by congruence. congruence.
+  - intros k. destruct (Nat.lt_ge_cases k (length (liq s))) as [Hk|Hk].
+    + rewrite nthq_vadd by congruence. rewrite nthq_vscale. specialize (PT k Hk).
+      destruct (pos k (idx c)); destruct PT as (A & B & D & E & F & X & Y); rewrite F, B, D; lra.
+    + rewrite !OV; try reflexivity; try lia; try congruence. unfold vadd. rewrite map2_length by congruence. congruence.
+Qed.
+
+Lemma ph_chemical_exact_lemma H m :
+  wf (ms m) -> length (molv c) = length (idx c) -> NoDup (idx c) ->
+  (forall i, In i (idx c) -> (i < length (liq (ms m)))%nat) ->
+  let m' := ph_chemical orc c m P H in
+  (HL (liq (ms m')) + HG (vap (ms m')) + HR (oth (ms m')) == H /\ sT (ms m') = o_Tsat orc P) \/
+  (exists k s, ms m' = with_T s (o_solveT orc k s H (o_Tsat orc P) P)).
+Proof.
+  intros W LM ND RG. unfold ph_chemical, call_xH, call_solveT. cbn [ms mset tick mk fst snd].
+  set (T := o_Tsat orc P). set (s := with_T (ms m) T).
+  destruct (qleb (o_xH orc (mk m) (all_vap c s) T P) H) eqn:C1; [right; eexists; eexists; reflexivity|].
+  destruct (qleb H (o_xH orc (S (mk m)) (all_liq c (all_vap c s)) T P)) eqn:C2; [right; eexists; eexists; reflexivity|].
+  left. apply qleb_false in C1. apply qleb_false in C2. cbn [ms mset].
+  set (V := (H - o_xH orc (S (mk m)) (all_liq c (all_vap c s)) T P) /
+            (o_xH orc (mk m) (all_vap c s) T P - o_xH orc (S (mk m)) (all_liq c (all_vap c s)) T P)).
+  destruct (split_states s V W LM ND RG) as (A1 & A2 & A3 & A4 & LG & LV & O1 & O2).
+  set (s2 := all_liq c (all_vap c s)) in *. set (G := only_idx c (liq s2)) in *.
+  split; [|reflexivity].
+  rewrite (HL_ext _ _ A1), (HG_ext _ _ A2), O1.
+  rewrite HL_sub by congruence. rewrite HG_add by congruence.
+  unfold T in C1, C2. rewrite xH_lin in C1, C2. fold s2 in C2.
+  rewrite (HL_ext _ _ A3), (HG_ext _ _ A4), O2 in C1. rewrite HL_sub in C1 by congruence. rewrite HG_add in C1 by congruence.
+  assert (EV : V * ((HL (liq s2) - 1 * HL G + (HG (vap s2) + 1 * HG G) + HR (oth s2)) - (HL (liq s2) + HG (vap s2) + HR (oth s2)))
+               == H - (HL (liq s2) + HG (vap s2) + HR (oth s2))).
+  { unfold V, T. rewrite !xH_lin. fold s2.
+    rewrite (HL_ext _ _ A3), (HG_ext _ _ A4), O2. rewrite HL_sub by congruence. rewrite HG_add by congruence. field. lra. }
+  lra.
+Qed.
+End PHChemical.
